@@ -4,6 +4,7 @@ package secp256k1
 
 import (
 	"crypto"
+	"errors"
 
 	"github.com/bytemare/secp256k1/internal/field"
 )
@@ -45,4 +46,27 @@ func verifExpandXMD(input, dst []byte, length uint) []byte {
 		return out
 	}
 	return expandXMD(input, dst, length)
+}
+
+// VerifErrKind names an error by the package variable it is (not by its message text, which is free to change).
+func VerifErrKind(err error) string {
+	switch {
+	case err == nil:
+		return "ok"
+	case errors.Is(err, errParamInvalidPointEncoding):
+		return "invalidPointEncoding"
+	case errors.Is(err, errParamNilScalar):
+		return "nilScalar"
+	case errors.Is(err, errParamScalarLength):
+		return "scalarLength"
+	case errors.Is(err, errParamScalarTooBig):
+		return "scalarTooBig"
+	}
+	return ""
+}
+
+// VerifIsZeroLenDST reports whether a recovered panic value is the package's zero-length-DST error.
+func VerifIsZeroLenDST(r any) bool {
+	e, ok := r.(error)
+	return ok && errors.Is(e, errZeroLenDST)
 }
